@@ -118,7 +118,7 @@ func (g *gen) msg() *MsgSpec {
 	return m
 }
 
-var mdKeys = []string{"k1", "k2", "x-app", "dup", "data-bin", "other-bin", "a.b_c-d", "authorization", "zz9"}
+var mdKeys = []string{"k1", "k2", "x-app", "dup", "data-bin", "other-bin", "a.b_c-d", "authorization", "zz9", "bin"}
 
 func (g *gen) md(max int) []KV {
 	n := g.pick(max + 1)
@@ -700,6 +700,18 @@ func (g *gen) program(profile string, seed int64) *Program {
 		// a peer that answers while much of the request is still to come only
 		// matters when the sender cannot hand everything to the network at once
 		p.Cfg.SendBuf = []int{4096, 32768}[g.pick(2)]
+	}
+	for _, r := range p.RPCs {
+		// a message that cannot be encoded cannot be copied between a generated
+		// and a dynamic representation either (the copy goes through the wire
+		// form): such calls use generated messages on both sides
+		for _, ops := range [][]Op{r.Client, r.Client2, r.Handler} {
+			for _, o := range ops {
+				if o.Msg != nil && o.Msg.Kind == 4 {
+					r.DynC, r.DynH = false, false
+				}
+			}
+		}
 	}
 	if p.Cfg.Cloner >= 2 {
 		// the codec / clone-func / copy-func adapters create destinations by
